@@ -56,7 +56,7 @@ def run(res):
     from props.theorems import THEOREMS
     prove_obligations(res, THEOREMS.get("C04", []))
     files, bad = compressed_files(rng, 400 if thorough else 70, max_n=300)
-    sparse, bad2 = compressed_files(rng, 150 if thorough else 30, max_n=3000, shapes=["sparse", "rl_wide"], orders=[0, 0, 1, 7], levels=[0, 2, 3, 4, 8, 12])
+    sparse, bad2 = compressed_files(rng, 150 if thorough else 30, max_n=3000, shapes=["sparse", "rl_wide", "zipf"], orders=[0, 0, 1, 7], levels=[0, 2, 3, 4, 8, 12])
     gfiles = grammar_files(rng, 600 if thorough else 120)
     afiles = asset_files()
     res.oblige("K:valid files were produced", "K", not bad and not bad2, str((bad + bad2)[:1])[:300])
